@@ -183,23 +183,25 @@ fn seg2(b: u8) -> &'static str {
     unsafe { std::str::from_utf8_unchecked(raw) }
 }
 fn alnum(b: u8) -> bool { (b >= b'0' && b <= b'9') || (b >= b'a' && b <= b'z') || (b >= b'A' && b <= b'Z') || b == b'-' || b == b'_' || b == b'.' }
-#[kani::proof]
-#[kani::unwind(8)]
-#[kani::stub(crate::fang::handler::Handler::default_not_found, stub_default_not_found)]
-fn c01_finalize_orders_children() {
+/// registration order k (one of the 6 permutations, a compile-time constant of the harness) of two static children /x, /y and a param child
+fn finalize_orders_children_body(k: usize) {
     use base::__verif_c01::v_node;
     let (x, y): (u8, u8) = (kani::any(), kani::any());
     kani::assume(alnum(x) && alnum(y) && x != y);       // two distinct one-character static segments over the route alphabet (digits included)
-    let order: u8 = kani::any();
-    kani::assume(order < 6);
-    let mk = |k: u8| match k {
-        0 => v_node(Some(base::Pattern::Static(std::borrow::Cow::Borrowed(seg2(x)))), true, vec![]),
-        1 => v_node(Some(base::Pattern::Static(std::borrow::Cow::Borrowed(seg2(y)))), true, vec![]),
-        _ => v_node(Some(base::Pattern::Param(std::borrow::Cow::Borrowed("p"))), true, vec![]),
-    };
     const PERMS: [[u8; 3]; 6] = [[0, 1, 2], [0, 2, 1], [1, 0, 2], [1, 2, 0], [2, 0, 1], [2, 1, 0]];
-    let p = PERMS[order as usize];
-    let root = v_node(None, true, vec![mk(p[0]), mk(p[1]), mk(p[2])]);
+    let p = PERMS[k];
+    let (sx, sy) = (seg2(x), seg2(y));
+    let mut kids: Vec<base::Node> = Vec::with_capacity(3);
+    let mut i = 0;
+    while i < 3 {
+        kids.push(match p[i] {
+            0 => v_node(Some(base::Pattern::Static(std::borrow::Cow::Borrowed(sx))), true, vec![]),
+            1 => v_node(Some(base::Pattern::Static(std::borrow::Cow::Borrowed(sy))), true, vec![]),
+            _ => v_node(Some(base::Pattern::Param(std::borrow::Cow::Borrowed("p"))), true, vec![]),
+        });
+        i += 1;
+    }
+    let root = v_node(None, true, kids);
     let fin = Node::from(root);
     assert!(fin.children.len() == 3, "finalize: all three children kept");
     assert!(matches!(fin.children[2].pattern, Pattern::Param), "finalize: the param child is last, whatever the registration order");
@@ -216,8 +218,10 @@ fn c01_finalize_orders_children() {
     assert!(path.init_with_request_bytes(&raw[..]).is_ok());
     let (t, hit) = fin.search_target(&mut path);
     assert!(hit && matches!(t.pattern, Pattern::Static(s) if s[1] == x), "finalize + search: `/x` reaches the static route /x, not the param sibling");
+    std::mem::forget(fin); std::mem::forget(path);
     kani::cover!(x >= b'0' && x <= b'9' && y > b'a');
 }
+//@chunks 6 c01_finalize_orders_children finalize_orders_children_body #[kani::proof] #[kani::unwind(8)] #[kani::stub(crate::fang::handler::Handler::default_not_found, stub_default_not_found)]
 
 /// compression of a single-static-child chain: "" -> "/a" -> "/b"(handler) becomes one node "/a/b"
 #[kani::proof]
